@@ -137,6 +137,10 @@ func init() {
 		},
 		"(*runtime.TypeAssertionError).Error": func(fr *frame, a []value) value { return "interface conversion error" },
 		// encoding/gob registration is irrelevant to every modelled path
+		"encoding/gob.NewDecoder":        func(fr *frame, a []value) value { return new(value) },
+		"encoding/gob.NewEncoder":        func(fr *frame, a []value) value { return new(value) },
+		"(*encoding/gob.Decoder).Decode": func(fr *frame, a []value) value { return fr.i.errValue("gob: not modelled (stub returns an error)") },
+		"(*encoding/gob.Encoder).Encode": func(fr *frame, a []value) value { return fr.i.errValue("gob: not modelled (stub returns an error)") },
 		"encoding/gob.Register":     nop,
 		"encoding/gob.RegisterName": nop,
 		// math
